@@ -321,10 +321,142 @@ func (w *wireEnv) binaryRow(c *lib.Ctx, cs caseT, id int, stored []interface{}, 
 				fmt.Sprintf("%s %s: stored %v, binary value % x denotes %s", name, decl, stored[i], val, denotes)})
 		}
 	}
-	cid := c.Case("CBinRow "+lib.CoqList(items), cs, "wirebin|"+strings.Join(cs.Wire.Vals, "|"))
+	nulls := make([]string, ncols)
+	for i := range nulls {
+		nulls[i] = lib.CoqBool(stored[i] == nil)
+	}
+	cid := c.Case("CBinRow "+lib.CoqBytes(bitmap)+" "+lib.CoqList(nulls)+" "+lib.CoqList(items), cs, "wirebin|"+strings.Join(cs.Wire.Vals, "|"))
 	c.Count("wire_binary_row_captured")
 	c.PredChecked()
 	for _, f := range fails {
 		c.PredFail(cid, f.sig, f.what, cs)
+	}
+}
+
+// ---------- column definitions ----------
+
+type metaCol struct {
+	Name, Decl, Coq string
+	NotNull         bool
+	Unsigned        bool
+	Frac            int // fraction digits values of the type are printed with (-1: not applicable)
+}
+
+var metaCols = []metaCol{
+	{"i8", "TINYINT", "TInt I8", false, false, -1}, {"u8", "TINYINT UNSIGNED", "TInt U8", true, true, -1},
+	{"i16", "SMALLINT", "TInt I16", true, false, -1}, {"u16", "SMALLINT UNSIGNED", "TInt U16", false, true, -1},
+	{"i24", "MEDIUMINT", "TInt I24", false, false, -1}, {"u24", "MEDIUMINT UNSIGNED", "TInt U24", true, true, -1},
+	{"i32", "INT", "TInt I32", true, false, -1}, {"u32", "INT UNSIGNED", "TInt U32", false, true, -1},
+	{"i64", "BIGINT", "TInt I64", false, false, -1}, {"u64", "BIGINT UNSIGNED", "TInt U64", false, true, -1},
+	{"d1", "DECIMAL(10,3)", "TDecimal 10 3", false, false, 3}, {"d2", "DECIMAL(65,30)", "TDecimal 65 30", true, false, 30},
+	{"d3", "DECIMAL(9,0)", "TDecimal 9 0", false, false, 0}, {"d4", "DECIMAL(5,5)", "TDecimal 5 5", false, false, 5},
+	{"y", "YEAR", "TYear", false, false, -1}, {"yn", "YEAR", "TYear", true, false, -1},
+	{"b1", "BIT(1)", "TBit 1", false, false, -1}, {"b64", "BIT(64)", "TBit 64", true, false, -1},
+	{"dt", "DATE", "TDate", false, false, -1}, {"dtn", "DATE", "TDate", true, false, -1},
+	{"ts0", "DATETIME", "TDatetime 0", false, false, 0}, {"ts3", "DATETIME(3)", "TDatetime 3", true, false, 3},
+	{"ts6", "DATETIME(6)", "TDatetime 6", false, false, 6},
+	{"tt0", "TIMESTAMP", "TTimestamp 0", false, false, 0}, {"tt6", "TIMESTAMP(6)", "TTimestamp 6", false, false, 6},
+	{"tm", "TIME(6)", "TTime", false, false, 6}, {"tmn", "TIME(6)", "TTime", true, false, 6},
+	{"en", "ENUM('a','B','x y')", "TEnum [[97];[66];[120;32;121]]", false, false, -1},
+	{"enn", "ENUM('a','B','x y')", "TEnum [[97];[66];[120;32;121]]", true, false, -1},
+	{"st", "SET('a','B','日本')", "TSet [[97];[66];[230;151;165;230;156;172]]", false, false, -1},
+	{"vc", "VARCHAR(10)", "TStr (VarChar 10)", false, false, -1}, {"vcn", "VARCHAR(3)", "TStr (VarChar 3)", true, false, -1},
+	{"vb", "VARBINARY(7)", "TStr (VarBinary 7)", false, false, -1}, {"vbn", "VARBINARY(7)", "TStr (VarBinary 7)", true, false, -1},
+	{"tx", "TEXT", "TStr Text", false, false, -1}, {"ch", "CHAR(5)", "TStr (Char 5)", false, false, -1},
+	{"bn", "BINARY(6)", "TStr (Binary 6)", false, false, -1},
+}
+
+type colDef struct {
+	Name                          string
+	Charset, Type, Flags, Decimal int
+	Length                        uint32
+}
+
+func parseColDef(p []byte) (colDef, bool) {
+	var d colDef
+	for i := 0; i < 6; i++ {
+		val, rest, ok := lenencRead(p)
+		if !ok {
+			return d, false
+		}
+		if i == 4 {
+			d.Name = string(val[1:]) // names here are shorter than 251 bytes
+		}
+		p = rest
+	}
+	if len(p) < 13 || p[0] != 0x0c {
+		return d, false
+	}
+	d.Charset = int(binary.LittleEndian.Uint16(p[1:]))
+	d.Length = binary.LittleEndian.Uint32(p[3:])
+	d.Type = int(p[7])
+	d.Flags = int(binary.LittleEndian.Uint16(p[8:]))
+	d.Decimal = int(p[10])
+	return d, true
+}
+
+func runMeta(c *lib.Ctx, cs caseT) {
+	w := newWireEnv()
+	defer w.close()
+	var decl []string
+	for _, m := range metaCols {
+		d := m.Name + " " + m.Decl
+		if m.NotNull {
+			d += " NOT NULL"
+		}
+		decl = append(decl, d)
+	}
+	w.s.MustExec("CREATE TABLE m (id INT PRIMARY KEY AUTO_INCREMENT, " + strings.Join(decl, ", ") + ")")
+	w.cap.t.reset()
+	rows, err := w.cap.db.Query("SELECT * FROM m")
+	if err != nil {
+		id := c.CaseNoModel(cs, "")
+		c.PredFail(id, "meta/query-error", err.Error(), cs)
+		return
+	}
+	for rows.Next() {
+	}
+	rows.Close()
+	ps := w.cap.t.packets()
+	n := len(metaCols) + 1
+	if len(ps) < 1+n || len(ps[0]) != 1 || int(ps[0][0]) != n {
+		id := c.CaseNoModel(cs, "")
+		c.PredFail(id, "meta/unexpected-response", fmt.Sprintf("%d packets, first % x", len(ps), ps[0]), cs)
+		return
+	}
+	var terms []string
+	type failT struct{ sig, what string }
+	var fails []failT
+	for i := 0; i < n; i++ {
+		d, ok := parseColDef(ps[1+i])
+		m := metaCol{"id", "INT", "TInt I32", true, false, -1}
+		pk, ai := true, true
+		if i > 0 {
+			m, pk, ai = metaCols[i-1], false, false
+		}
+		if !ok || d.Name != m.Name {
+			fails = append(fails, failT{"meta/column-definition-unreadable", fmt.Sprintf("column %d (%s): % x", i, m.Name, ps[1+i])})
+			continue
+		}
+		terms = append(terms, fmt.Sprintf("(%s, (%s, %s, %s), (%d%%Z, %d%%Z, %d%%Z, %d%%Z, %d%%Z))", m.Coq, lib.CoqBool(m.NotNull), lib.CoqBool(pk), lib.CoqBool(ai),
+			d.Type, d.Flags, d.Decimal, d.Length, d.Charset))
+		// independent expectations (MySQL semantics of the fields a client relies on)
+		kind := strings.ToLower(strings.Fields(strings.Split(m.Decl, "(")[0])[0])
+		if (d.Flags&1 != 0) != m.NotNull {
+			fails = append(fails, failT{"meta/" + kind + "/not-null-flag", fmt.Sprintf("%s %s: NOT NULL declared %v, flags %#x", m.Name, m.Decl, m.NotNull, d.Flags)})
+		}
+		if strings.Contains(m.Decl, "INT") && (d.Flags&32 != 0) != m.Unsigned {
+			fails = append(fails, failT{"meta/" + kind + "/unsigned-flag", fmt.Sprintf("%s %s: flags %#x", m.Name, m.Decl, d.Flags)})
+		}
+		if m.Frac >= 0 && d.Decimal != m.Frac {
+			fails = append(fails, failT{"meta/" + kind + "/decimals-not-announced",
+				fmt.Sprintf("%s %s: values carry %d fraction digits, the column definition announces decimals = %d", m.Name, m.Decl, m.Frac, d.Decimal)})
+		}
+	}
+	id := c.Case("CMeta "+lib.CoqList(terms), cs, "meta")
+	c.Count("column_definitions_captured")
+	c.PredChecked()
+	for _, f := range fails {
+		c.PredFail(id, f.sig, f.what, cs)
 	}
 }
